@@ -1,4 +1,359 @@
-import EE.Model.Program
+import EE.Spec.Eval
+import EE.Lemmas.StdInv
+import EE.Lemmas.Triple
+/-! # C07 — each subexpression runs once, left to right; conditionals are lazy
+
+The specification is the big-step semantics `EE.Spec.Eval` (read it first: it is short). This
+file proves that the model's evaluator satisfies it, for arbitrary handler behaviour, and spells
+out the consequences the property names. -/
 namespace EE.Props.C07
-theorem placeholder : True := trivial
+open EE EngineM EE.Spec
+
+variable {σ : Type}
+
+abbrev AnyFault : Fault → Prop := fun _ => True
+/-- Handlers that leave no engine lock held or poisoned (anything else is allowed). -/
+abbrev HandlersClean (inv : Inv σ) : Prop := InvKeeps World.Clean AnyFault inv
+
+theorem bind'_fail_eq {α β : Type} {m : EngineM σ α} {f : α → EngineM σ β} {w w1 : World σ} {r : Res α}
+    (h : m w = (r, w1)) (hr : r.isOk = false) : bind' m f w = (castFail r, w1) := by
+  cases r <;> simp [Res.isOk] at hr <;> simp [bind', h, castFail]
+
+theorem castFail_id {r : Res Value} (hr : r.isOk = false) : (castFail r : Res Value) = r := by
+  cases r <;> simp [Res.isOk] at hr <;> rfl
+
+theorem bind'_fail_eq' {β : Type} {m : EngineM σ Value} {f : Value → EngineM σ Value} {w w1 : World σ} {r : Res Value}
+    (h : m w = (r, w1)) (hr : r.isOk = false) : bind' m f w = (r, w1) := by
+  rw [bind'_fail_eq h hr, castFail_id hr]
+
+theorem isOk_false_of {α : Type} {r : Res α} (h : ∀ a, r ≠ .ok a) : r.isOk = false := by
+  cases r <;> first | rfl | exact absurd rfl (h _)
+
+theorem clean_after (inv : Inv σ) (hinv : HandlersClean inv) (t : AST) (w : World σ) (hw : w.Clean) :
+    (exec inv t w).2.Clean := (Keeps.exec (A := AnyFault) trivial stable_clean hinv t w hw).1
+theorem clean_after_list (inv : Inv σ) (hinv : HandlersClean inv) (ts : List AST) (w : World σ) (hw : w.Clean) :
+    (execList inv ts w).2.Clean := (Keeps.execList (A := AnyFault) trivial stable_clean hinv ts w hw).1
+theorem clean_after_map (inv : Inv σ) (hinv : HandlersClean inv) (ts : List (AST × AST)) (w : World σ) (hw : w.Clean) :
+    (execMap inv ts w).2.Clean := (Keeps.execMap (A := AnyFault) trivial stable_clean hinv ts w hw).1
+
+theorem ctxGetFunc_clean (f : Name) (w : World σ) (hw : w.Clean) :
+    ctxGetFunc f w = (.ok (match alookup f w.ctx with | some (.fn h) => some h | _ => Option.none), w) := by
+  simp only [ctxGetFunc, bind'_ok (ctxGet_clean hw)]
+  cases alookup f w.ctx with
+  | none => rfl
+  | some cv => cases cv <;> rfl
+
+mutual
+/-- **The evaluator satisfies the big-step specification**, for every tree, from every world in
+which no engine lock is held, whatever the handlers do (log, keep state, fail, panic, re-enter). -/
+theorem exec_sound (inv : Inv σ) (hinv : HandlersClean inv) : ∀ (t : AST) (w : World σ), w.Clean → Eval inv t w (exec inv t w)
+  | .lit l, w, _ => by simp only [exec]; exact Eval.lit l w
+  | .none, w, _ => by simp only [exec]; exact Eval.none w
+  | .ref n, w, hw => by
+      simp only [exec, ctxValue, bind'_ok (ctxGet_clean hw)]
+      cases h : alookup n w.ctx with
+      | none => exact Eval.refUnbound h
+      | some cv => cases cv with
+        | var v => exact Eval.refVar h
+        | fn hd => exact Eval.refFn h
+  | .call f args, w, hw => by
+      have ih := execList_sound inv hinv args w hw
+      have hc := clean_after_list inv hinv args w hw
+      simp only [exec]
+      cases hr : execList inv args w with
+      | mk r w1 =>
+        rw [hr] at ih hc
+        cases hok : r.isOk with
+        | false => rw [bind'_fail_eq hr hok]; exact Eval.callArgsFail ih hok
+        | true =>
+          cases r <;> simp [Res.isOk] at hok
+          rename_i vs
+          simp only [bind'_ok hr, bind'_ok (ctxGetFunc_clean f w1 hc)]
+          cases hl : alookup f w1.ctx with
+          | none =>
+            simp only []
+            cases hg : alookup f w1.regs.fns with
+            | none => rw [bind'_err (lookupE_none hc hg)]; exact Eval.callUnknown ih (by simp [hl]) hg
+            | some h => rw [bind'_ok (lookupE_some hc hg)]; exact Eval.callGlobal ih (by simp [hl]) hg
+          | some cv =>
+            cases cv with
+            | fn h => exact Eval.callCtx ih hl
+            | var v =>
+              simp only []
+              cases hg : alookup f w1.regs.fns with
+              | none => rw [bind'_err (lookupE_none hc hg)]; exact Eval.callUnknown ih (by simp [hl]) hg
+              | some h => rw [bind'_ok (lookupE_some hc hg)]; exact Eval.callGlobal ih (by simp [hl]) hg
+  | .unary op rhs, w, hw => by
+      simp only [exec]
+      cases hl : alookup op w.regs.pre with
+      | none => rw [bind'_err (lookupE_none hw hl)]; exact Eval.unaryUnreg hl
+      | some h =>
+        rw [bind'_ok (lookupE_some hw hl)]
+        have ih := exec_sound inv hinv rhs w hw
+        cases hr : exec inv rhs w with
+        | mk r w1 =>
+          rw [hr] at ih
+          cases hok : r.isOk with
+          | false => rw [bind'_fail_eq' (β := Value) hr hok]; exact Eval.unaryFail hl ih hok
+          | true =>
+            cases r <;> simp [Res.isOk] at hok
+            rw [bind'_ok hr]; exact Eval.unary hl ih
+  | .postfix lhs op, w, hw => by
+      simp only [exec]
+      cases hl : alookup op w.regs.post with
+      | none => rw [bind'_err (lookupE_none hw hl)]; exact Eval.postfixUnreg hl
+      | some h =>
+        rw [bind'_ok (lookupE_some hw hl)]
+        have ih := exec_sound inv hinv lhs w hw
+        cases hr : exec inv lhs w with
+        | mk r w1 =>
+          rw [hr] at ih
+          cases hok : r.isOk with
+          | false => rw [bind'_fail_eq' (β := Value) hr hok]; exact Eval.postfixFail hl ih hok
+          | true =>
+            cases r <;> simp [Res.isOk] at hok
+            rw [bind'_ok hr]; exact Eval.postfix hl ih
+  | .binary op l r, w, hw => by
+      simp only [exec]
+      cases hl : alookup op w.regs.inf with
+      | none => rw [bind'_err (lookupE_none hw hl)]; exact Eval.binaryUnreg hl
+      | some cfg =>
+        rw [bind'_ok (lookupE_some hw hl)]
+        have ihl := exec_sound inv hinv l w hw
+        have hcl := clean_after inv hinv l w hw
+        cases hs : cfg.setter with
+        | false =>
+          simp only [Bool.false_eq_true, if_false, bind'_ok (lookupE_some hw hl)]
+          cases hrl : exec inv l w with
+          | mk ra w1 =>
+            rw [hrl] at ihl hcl
+            cases hoka : ra.isOk with
+            | false => rw [bind'_fail_eq' (β := Value) hrl hoka]; exact Eval.binaryFailL hl ihl hoka
+            | true =>
+              cases ra <;> simp [Res.isOk] at hoka
+              rename_i a
+              rw [bind'_ok hrl]
+              have ihr := exec_sound inv hinv r w1 hcl
+              cases hrr : exec inv r w1 with
+              | mk rb w2 =>
+                rw [hrr] at ihr
+                cases hokb : rb.isOk with
+                | false => rw [bind'_fail_eq' (β := Value) hrr hokb]; exact Eval.binaryFailR hl ihl ihr hokb
+                | true =>
+                  cases rb <;> simp [Res.isOk] at hokb
+                  rw [bind'_ok hrr]; exact Eval.calc hl hs ihl ihr
+        | true =>
+          simp only [if_true]
+          cases hrl : exec inv l w with
+          | mk ra w1 =>
+            rw [hrl] at ihl hcl
+            cases hoka : ra.isOk with
+            | false => rw [bind'_fail_eq' (β := Value) hrl hoka]; exact Eval.binaryFailL hl ihl hoka
+            | true =>
+              cases ra <;> simp [Res.isOk] at hoka
+              rename_i a
+              rw [bind'_ok hrl]
+              have ihr := exec_sound inv hinv r w1 hcl
+              have hcr := clean_after inv hinv r w1 hcl
+              cases hrr : exec inv r w1 with
+              | mk rb w2 =>
+                rw [hrr] at ihr hcr
+                cases hokb : rb.isOk with
+                | false => rw [bind'_fail_eq' (β := Value) hrr hokb]; exact Eval.binaryFailR hl ihl ihr hokb
+                | true =>
+                  cases rb <;> simp [Res.isOk] at hokb
+                  rename_i b
+                  rw [bind'_ok hrr]
+                  cases hisref : isRef l with
+                  | false =>
+                    have : refName l = .err .notReferenceExpr := by cases l <;> simp [isRef] at hisref <;> rfl
+                    simp only [this, bind'_lift_err]
+                    exact Eval.assignNonName hl hs hisref ihl ihr
+                  | true =>
+                    cases l <;> simp [isRef] at hisref
+                    rename_i x
+                    simp only [refName, bind'_lift_ok]
+                    cases hl2 : alookup op w2.regs.inf with
+                    | none => rw [bind'_err (lookupE_none hcr hl2)]; exact Eval.assignUnreg hl hs ihl ihr hl2
+                    | some cfg2 =>
+                      rw [bind'_ok (lookupE_some hcr hl2)]
+                      have hki := Keeps.invoke (A := AnyFault) trivial stable_clean hinv cfg2.h [a, b] w2 hcr
+                      cases hiv : invoke inv cfg2.h [a, b] w2 with
+                      | mk rv w3 =>
+                        rw [hiv] at hki
+                        cases hokv : rv.isOk with
+                        | false => rw [bind'_fail_eq' (β := Value) hiv hokv]; exact Eval.assignHandlerFail hl hs ihl ihr hl2 hiv hokv
+                        | true =>
+                          cases rv <;> simp [Res.isOk] at hokv
+                          rename_i v
+                          rw [bind'_ok hiv, bind'_ok (ctxSet_clean hki.1)]
+                          exact Eval.assign hl hs ihl ihr hl2 hiv
+  | .ternary c a b, w, hw => by
+      simp only [exec]
+      have ihc := exec_sound inv hinv c w hw
+      have hcc := clean_after inv hinv c w hw
+      cases hrc : exec inv c w with
+      | mk rc w1 =>
+        rw [hrc] at ihc hcc
+        cases hok : rc.isOk with
+        | false => rw [bind'_fail_eq' (β := Value) hrc hok]; exact Eval.ternFail ihc hok
+        | true =>
+          cases rc <;> simp [Res.isOk] at hok
+          rename_i v
+          rw [bind'_ok hrc]
+          cases v with
+          | bool bb =>
+            cases bb with
+            | true => exact Eval.ternTrue ihc (exec_sound inv hinv a w1 hcc)
+            | false => exact Eval.ternFalse ihc (exec_sound inv hinv b w1 hcc)
+          | str s => exact Eval.ternNonBool ihc (by intro x h; cases h)
+          | num d => exact Eval.ternNonBool ihc (by intro x h; cases h)
+          | list l => exact Eval.ternNonBool ihc (by intro x h; cases h)
+          | map m => exact Eval.ternNonBool ihc (by intro x h; cases h)
+          | none => exact Eval.ternNonBool ihc (by intro x h; cases h)
+  | .list xs, w, hw => by
+      simp only [exec]
+      have ih := execList_sound inv hinv xs w hw
+      cases hr : execList inv xs w with
+      | mk r w1 =>
+        rw [hr] at ih
+        cases hok : r.isOk with
+        | false => rw [bind'_fail_eq hr hok]; exact Eval.listFail ih hok
+        | true => cases r <;> simp [Res.isOk] at hok; rw [bind'_ok hr]; exact Eval.list ih
+  | .map kvs, w, hw => by
+      simp only [exec]
+      have ih := execMap_sound inv hinv kvs w hw
+      cases hr : execMap inv kvs w with
+      | mk r w1 =>
+        rw [hr] at ih
+        cases hok : r.isOk with
+        | false => rw [bind'_fail_eq hr hok]; exact Eval.mapFail ih hok
+        | true => cases r <;> simp [Res.isOk] at hok; rw [bind'_ok hr]; exact Eval.map ih
+  | .stmt xs, w, hw => by
+      simp only [exec]; exact Eval.stmt (execChain_sound inv hinv Value.none xs w hw)
+theorem execList_sound (inv : Inv σ) (hinv : HandlersClean inv) :
+    ∀ (ts : List AST) (w : World σ), w.Clean → EvalList inv ts w (execList inv ts w)
+  | [], w, _ => by simp only [execList]; exact EvalList.nil w
+  | a :: as, w, hw => by
+      simp only [execList]
+      have ih := exec_sound inv hinv a w hw
+      have hc := clean_after inv hinv a w hw
+      cases hr : exec inv a w with
+      | mk r w1 =>
+        rw [hr] at ih hc
+        cases hok : r.isOk with
+        | false => rw [bind'_fail_eq hr hok]; exact EvalList.failHead ih hok
+        | true =>
+          cases r <;> simp [Res.isOk] at hok
+          rw [bind'_ok hr]
+          have ih2 := execList_sound inv hinv as w1 hc
+          cases hr2 : execList inv as w1 with
+          | mk r2 w2 =>
+            rw [hr2] at ih2
+            cases hok2 : r2.isOk with
+            | false => rw [bind'_fail_eq hr2 hok2]; exact EvalList.failTail ih ih2 hok2
+            | true => cases r2 <;> simp [Res.isOk] at hok2; rw [bind'_ok hr2]; exact EvalList.cons ih ih2
+theorem execMap_sound (inv : Inv σ) (hinv : HandlersClean inv) :
+    ∀ (ts : List (AST × AST)) (w : World σ), w.Clean → EvalMap inv ts w (execMap inv ts w)
+  | [], w, _ => by simp only [execMap]; exact EvalMap.nil w
+  | (k, v) :: rest, w, hw => by
+      simp only [execMap]
+      have ihk := exec_sound inv hinv k w hw
+      have hck := clean_after inv hinv k w hw
+      cases hrk : exec inv k w with
+      | mk rk w1 =>
+        rw [hrk] at ihk hck
+        cases hokk : rk.isOk with
+        | false => rw [bind'_fail_eq hrk hokk]; exact EvalMap.failKey ihk hokk
+        | true =>
+          cases rk <;> simp [Res.isOk] at hokk
+          rw [bind'_ok hrk]
+          have ihv := exec_sound inv hinv v w1 hck
+          have hcv := clean_after inv hinv v w1 hck
+          cases hrv : exec inv v w1 with
+          | mk rv w2 =>
+            rw [hrv] at ihv hcv
+            cases hokv : rv.isOk with
+            | false => rw [bind'_fail_eq hrv hokv]; exact EvalMap.failValue ihk ihv hokv
+            | true =>
+              cases rv <;> simp [Res.isOk] at hokv
+              rw [bind'_ok hrv]
+              have ihr := execMap_sound inv hinv rest w2 hcv
+              cases hrr : execMap inv rest w2 with
+              | mk rr w3 =>
+                rw [hrr] at ihr
+                cases hokr : rr.isOk with
+                | false => rw [bind'_fail_eq hrr hokr]; exact EvalMap.failRest ihk ihv ihr hokr
+                | true => cases rr <;> simp [Res.isOk] at hokr; rw [bind'_ok hrr]; exact EvalMap.cons ihk ihv ihr
+theorem execChain_sound (inv : Inv σ) (hinv : HandlersClean inv) :
+    ∀ (last : Value) (ts : List AST) (w : World σ), w.Clean → EvalChain inv last ts w (execChain inv last ts w)
+  | last, [], w, _ => by simp only [execChain]; exact EvalChain.nil last w
+  | last, a :: as, w, hw => by
+      simp only [execChain]
+      have ih := exec_sound inv hinv a w hw
+      have hc := clean_after inv hinv a w hw
+      cases hr : exec inv a w with
+      | mk r w1 =>
+        rw [hr] at ih hc
+        cases hok : r.isOk with
+        | false => rw [bind'_fail_eq' (β := Value) hr hok]; exact EvalChain.fail ih hok
+        | true =>
+          cases r <;> simp [Res.isOk] at hok
+          rw [bind'_ok hr]; exact EvalChain.cons ih (execChain_sound inv hinv _ as w1 hc)
+end
+
+/-! ## Consequences named by the property -/
+
+/-- Only the selected branch of a conditional is evaluated: the conditional's outcome *is* the
+outcome of the selected branch in the world the condition left; the other branch does not occur. -/
+theorem selected_branch_only (inv : Inv σ) (c a b : AST) (w w1 : World σ) :
+    (exec inv c w = (.ok (.bool true), w1) → exec inv (.ternary c a b) w = exec inv a w1) ∧
+    (exec inv c w = (.ok (.bool false), w1) → exec inv (.ternary c a b) w = exec inv b w1) := by
+  constructor <;> intro h <;> simp only [exec, bind'_ok h]
+
+/-- A function is invoked only after all of its arguments have been evaluated, left to right:
+the call's outcome is the invocation on the evaluated argument values in the world they left. -/
+theorem args_before_call (inv : Inv σ) (f : Name) (args : List AST) (w w1 : World σ) (vs : List Value) (h : HandlerId)
+    (hargs : execList inv args w = (.ok vs, w1)) (hc : w1.Clean) (hf : alookup f w1.ctx = some (.fn h)) :
+    exec inv (.call f args) w = invoke inv h vs w1 := by
+  simp only [exec, bind'_ok hargs, bind'_ok (ctxGetFunc_clean f w1 hc), hf]
+
+theorem list_left_to_right (inv : Inv σ) (a : AST) (as : List AST) (w w1 : World σ) (v : Value)
+    (h : exec inv a w = (.ok v, w1)) :
+    execList inv (a :: as) w = bind' (execList inv as) (fun vs => pure' (v :: vs)) w1 := by
+  simp only [execList, bind'_ok h]
+
+/-- Evaluation stops at the first failure: if an element fails, the elements to its right are
+never evaluated (the outcome and the world are those of the failing element). -/
+theorem nothing_after_failure (inv : Inv σ) (a : AST) (as : List AST) (w w1 : World σ) (r : Res Value)
+    (h : exec inv a w = (r, w1)) (hr : r.isOk = false) :
+    (execList inv (a :: as) w).2 = w1 ∧ (execList inv (a :: as) w).1.isOk = false := by
+  simp only [execList, bind'_fail_eq h hr]
+  cases r <;> simp [Res.isOk] at hr <;> simp [castFail, Res.isOk]
+
+/-- The trace of handler invocations only grows, by exactly the invocations the evaluation made:
+nothing already evaluated is evaluated again, nothing is forgotten. -/
+theorem trace_only_grows (inv : Inv σ)
+    (hinv : ∀ h args w, w.Clean → (inv h args w).2.Clean ∧ ∃ evs, (inv h args w).2.trace = w.trace ++ evs)
+    (t : AST) (w : World σ) (hw : w.Clean) : ∃ evs, (exec inv t w).2.trace = w.trace ++ evs := by
+  let I : World σ → Prop := fun w' => w'.Clean ∧ ∃ evs, w'.trace = w.trace ++ evs
+  have hI : Stable0 I := ⟨fun _ h => h.1, fun _ _ h => h⟩
+  have hinvoke : ∀ h args, Triple I (fun _ w' => I w') (invoke inv h args) := by
+    intro h args w0 ⟨hc, evs, he⟩
+    have hc' : ({ w0 with trace := w0.trace ++ [Event.call h args] } : World σ).Clean := hc
+    obtain ⟨q1, evs2, q2⟩ := hinv h args _ hc'
+    have key : I (invoke inv h args w0).2 := by
+      refine ⟨q1, evs ++ [Event.call h args] ++ evs2, ?_⟩
+      show (inv h args _).2.trace = _
+      rw [q2]; simp [he]
+    exact ⟨fun a w' e => by rw [e] at key; exact key, fun r w' e _ => by rw [e] at key; exact key⟩
+  have main := Triple.exec (F := fun _ w' => I w') (fun _ h => h) hI hinvoke t w ⟨hw, [], by simp⟩
+  cases hout : exec inv t w with
+  | mk res w' =>
+    cases hok : res.isOk with
+    | true =>
+      cases res <;> simp [Res.isOk] at hok
+      exact (main.1 _ w' hout).2
+    | false => exact (main.2 res w' hout hok).2
+
 end EE.Props.C07
